@@ -17,7 +17,7 @@ import (
 
 // Node is the structural description of a generated error value.
 type Node struct {
-	Kind  string // P D N S W T F R
+	Kind  string // P D N S W T F R; C = context.Canceled, Q = net.DNSError with a cause (UnwrapErr)
 	Temp  bool
 	Code  int
 	Ench  [3]int
@@ -35,6 +35,13 @@ func (n *Node) Build() error {
 		return errors.New("open /var/lib/maddy/secret.db: permission denied")
 	case "D":
 		return context.DeadlineExceeded
+	case "C":
+		// cancellation of the context of the operation: nothing in maddy's conversions treats it
+		// specially (the model reads it as P)
+		return context.Canceled
+	case "Q":
+		// how the resolver reports an interrupted / failed query: a DNSError around the cause
+		return &net.DNSError{Err: "lookup interrupted", Name: "internal.example", IsTemporary: n.Temp, UnwrapErr: n.Inner.Build()}
 	case "N":
 		return &net.DNSError{Err: "lookup failed", Name: "internal.example", IsTemporary: n.Temp}
 	case "S":
@@ -71,8 +78,10 @@ func (n *Node) String() string {
 	}
 	trip := func() string { return fmt.Sprintf("%d %d %d %d %s", n.Code, n.Ench[0], n.Ench[1], n.Ench[2], vh.HexRunes(n.Msg)) }
 	switch n.Kind {
-	case "P", "D":
+	case "P", "D", "C":
 		return n.Kind
+	case "Q":
+		return "Q " + b01(n.Temp) + " " + n.Inner.String()
 	case "N":
 		return "N " + b01(n.Temp)
 	case "S", "R":
@@ -103,8 +112,12 @@ func Parse(toks []string) (*Node, []string) {
 	toks = toks[1:]
 	atoi := func(s string) int { v, _ := strconv.Atoi(s); return v }
 	switch k {
-	case "P", "D":
+	case "P", "D", "C":
 		return &Node{Kind: k}, toks
+	case "Q":
+		n := &Node{Kind: "Q", Temp: toks[0] == "1"}
+		n.Inner, toks = Parse(toks[1:])
+		return n, toks
 	case "N":
 		return &Node{Kind: "N", Temp: toks[0] == "1"}, toks[1:]
 	case "S", "R", "W":
@@ -224,11 +237,11 @@ func Gen(r *vh.Rng, depth int, wellFormed bool) *Node {
 
 func TempOf(n *Node) (bool, bool) {
 	switch n.Kind {
-	case "P":
+	case "P", "C":
 		return false, false
 	case "D":
 		return true, true
-	case "N", "T":
+	case "N", "T", "Q":
 		return n.Temp, true
 	case "S", "W", "R":
 		return n.Code/100 == 4, true
@@ -242,7 +255,7 @@ func CodeField(n *Node) (int, bool) {
 	switch n.Kind {
 	case "S", "W":
 		return n.Code, true
-	case "T":
+	case "T", "Q":
 		return CodeField(n.Inner)
 	case "F":
 		if n.HasC {
@@ -257,7 +270,7 @@ func MsgAnnotated(n *Node) bool {
 	switch n.Kind {
 	case "S", "W", "R":
 		return true
-	case "T":
+	case "T", "Q":
 		return MsgAnnotated(n.Inner)
 	case "F":
 		return n.HasM || MsgAnnotated(n.Inner)
@@ -289,8 +302,10 @@ func WellFormed(n *Node) bool {
 
 func leavesCoherent(n *Node) bool {
 	switch n.Kind {
-	case "P", "D", "N":
+	case "P", "D", "N", "C":
 		return true
+	case "Q":
+		return leavesCoherent(n.Inner)
 	case "S", "R":
 		return pairOk(n.Code, n.Ench)
 	case "W":
